@@ -39,6 +39,7 @@ def run(ctx):
     c07.run(dep(ctx, "C08", "C07"))
     from . import c15
     c15.cli_arm_dep(ctx, "C08", ("Cov",))
+    rule_threads_default(ctx, "C08.T", "coverage::CovComputer")
 
 
 def bin_rule(ctx):
@@ -239,6 +240,22 @@ def inputs_rule(ctx, fv):
                   "the counts-table loader skips or filters lines (`%s` in the loading loop): a k-mer that occurs in the "
                   "counting input would be treated as absent (bin 0)" % (branchy[0].get("k") if branchy else "?"),
                   line_of(branchy[0]) if branchy and branchy[0] is not fv.body else line_of(ins[0]))
+        # the table is this call's: a fresh local map, loaded unconditionally (no cache kept in the computer between runs)
+        recv = ins[0]["recv"]
+        while recv.get("k") in ("addr",) or (recv.get("k") == "un" and recv.get("op") == "*"):
+            recv = recv["e"]
+        fresh = False
+        if recv.get("k") == "local":
+            b_ = fv.binds.get(recv["id"])
+            if b_ and b_["val"][0] == "node" and b_["val"][1] is not None:
+                it_ = fv.term(b_["val"][1])
+                fresh = it_[0] == "call" and it_[1].split("::")[-1] in ("new", "with_capacity", "default") and "HashMap" in it_[1]
+        lg = [(show(fv.term(g)), p_) for g, p_ in (fv.guards(ll) if ll is not None and ll.get("k") else fv.guards(ins[0]))]
+        ctx.check("C08.P", "compute_coverages:table_fresh", fresh and not lg,
+                  "the table is a fresh local HashMap filled unconditionally on every call",
+                  "the counts table is %s%s: a table parsed by an earlier call (other input, other k) would be used for "
+                  "this run's rows" % ("not a map created in this call" if not fresh else "loaded only under ",
+                                       "" if not fresh else str(lg)), line_of(ins[0]))
         # the two fields come from the line in file order: first field -> key, second -> value
         parses = [n for n in walk(ll["body"]) if n.get("k") == "mcall" and cname(n).endswith("::parse")] if ll else []
         if ll is not None and ll.get("k") == "for" and ll.get("iter") is not None and not parses:
